@@ -67,6 +67,69 @@ func (ex *Exec) nativeCall(key string, callee *ssa.Function, c *ssa.CallCommon, 
 		vc.assume("(>= " + n + " " + clk + ")")
 		ex.set(st, "CLK", "Int", n)
 		return Val{T: "(- " + n + " " + ex.timeNanos(args[0].T) + ")"}, true
+	case "(*singleflight.Group).Do":
+		// Assumed contract of x/sync singleflight (not verified): for one key, executions of the supplied functions
+		// never overlap; Do either runs fn exactly once, synchronously, and returns what it returned (ran), or --
+		// when an execution for the same key is already in flight -- does not run fn and returns that execution's
+		// results (a value of the same dynamic type, produced by a function supplied under the same key).
+		mc, ok := c.Args[2].(*ssa.MakeClosure)
+		if !ok {
+			break
+		}
+		note()
+		vc.assumptions["singleflight.Group.Do: per key, supplied functions never run concurrently; a caller arriving during a flight gets that flight's (v, err) without running its own function; otherwise the function runs exactly once, synchronously (x/sync is outside the module: trusted)"] = true
+		st0 := ex.curState
+		ex.set(st0, "DOCNT", "Int", "(+ "+ex.get(st0, "DOCNT", "Int")+" 1)")
+		ex.set(st0, "DOKEY", strSort, args[1].T)
+		ran := vc.fresh(ex.pfx+"do_ran", "Bool")
+		ex.set(st0, "DORAN", "Bool", ran)
+		pre := ex.curState.clone()
+		reach0 := ex.curReach
+		ex.curReach = vc.define(ex.pfx+"do_reach", "Bool", sAnd(reach0, ran))
+		fnc := mc.Fn.(*ssa.Function)
+		r := ex.inlineCall(funcKey(fnc), fnc, ex.ts, mc, nil, pos)
+		post := ex.curState
+		// merge: the closure's effects only if it ran
+		merged := newState()
+		keys := map[string]bool{}
+		for k := range post.m {
+			keys[k] = true
+		}
+		for k := range pre.m {
+			keys[k] = true
+		}
+		for _, k := range sortedKeys(keys) {
+			srt := vc.compSort[k]
+			merged.m[k] = vc.define("do_"+k, srt, sIte(ran, ex.get(post, k, srt), ex.get(pre, k, srt)))
+		}
+		ex.curState = merged
+		ex.curReach = reach0
+		if len(r.Tup) != 2 {
+			vc.errorf("singleflight.Do: the supplied function must return (any, error)")
+			break
+		}
+		vc.declareOnce("fn:dyntag", "(declare-fun dyntag (Int) Int)")
+		dsh := vc.fresh(ex.pfx+"do_shared_v", "Int")
+		esh := vc.fresh(ex.pfx+"do_shared_err", "Int")
+		vc.assume(sImp(reach0, sAnd(sEq("(dyntag "+dsh+")", "(dyntag "+r.Tup[0].T+")"), sEq(sEq(dsh, "0"), sEq(r.Tup[0].T, "0")))))
+		data := vc.define(ex.pfx+"do_v", "Int", sIte(ran, r.Tup[0].T, dsh))
+		derr := vc.define(ex.pfx+"do_err", "Int", sIte(ran, r.Tup[1].T, esh))
+		return Val{Tup: []Val{{T: data}, {T: derr}, {T: vc.fresh(ex.pfx+"do_sharedflag", "Bool")}}}, true
+	case "time.After":
+		note()
+		// a channel that delivers once the ghost clock has advanced by at least d
+		r := ex.newRef("timerch")
+		st := ex.curState
+		ex.set(st, "TDUE", "(Array Int Int)", sSto(ex.get(st, "TDUE", "(Array Int Int)"), r, "(+ "+ex.get(st, "CLK", "Int")+" "+args[0].T+")"))
+		return Val{T: r}, true
+	case "time.Sleep":
+		note()
+		st := ex.curState
+		n := vc.fresh(ex.pfx+"now", "Int")
+		vc.assume("(>= " + n + " (+ " + ex.get(st, "CLK", "Int") + " " + args[0].T + "))")
+		vc.assume("(>= " + n + " " + ex.get(st, "CLK", "Int") + ")")
+		ex.set(st, "CLK", "Int", n)
+		return Val{}, true
 	case "rand.Int":
 		note()
 		r := vc.fresh(ex.pfx+"rand", "Int")
@@ -378,8 +441,14 @@ func (ex *Exec) doRecv(i *ssa.UnOp) {
 		return
 	}
 	ex.vals[i] = Val{T: ex.vc.fresh(ex.pfx+i.Name(), ex.sortOfT(i.Type()))}
-	if isTimeAfterRecv(i) != nil {
-		return
+	// a receive may block: the clock moves on, and past the due time if the channel came from time.After
+	// (TDUE of any other channel is an unconstrained value, which makes this no constraint for them)
+	if _, used := ex.vc.compSort["TDUE"]; used {
+		st := ex.curState
+		n := ex.vc.fresh(ex.pfx+"now", "Int")
+		ex.vc.assume("(and (>= " + n + " " + ex.get(st, "CLK", "Int") + ") (>= " + n + " " + sSel(ex.get(st, "TDUE", "(Array Int Int)"), ex.val(i.X).T) + "))")
+		ex.set(st, "CLK", "Int", n)
+		ex.vc.assumptions["<-time.After(d) returns only after the clock has advanced by at least d"] = true
 	}
 }
 
